@@ -361,7 +361,46 @@ func ByteRuns(v spec.Vec, full bool, f func(s, label string)) {
 }
 
 // Shapes runs all of the above for one vector and decoder level.
+// Presentations: the ways vectors are written in advisories, scanner output, databases and
+// configuration files — scheme labels in front (NVD, Nessus / OpenVAS "CVSS2#", "CVSS:2.0/",
+// a "CVSS3#" label in front of a prefixed vector), wrappers (parentheses as in NVD's v2
+// notation, brackets, quotes, angle brackets), a score or severity attached, key=value
+// forms, and line / field terminators. Every one is the valid vector with something around
+// it, so no decoder may accept it; labels are combined with every wrapper.
+var schemeLabels = []string{"CVSS2#", "CVSS3#", "CVSS#", "cvss2#", "CVSS2:", "CVSS:2.0/", "CVSS:2/", "CVSS:2.0#", "CVSSv2#", "CVSSv2:", "CVSSv2/", "CVSS2/", "CVSS/", "CVSS:", "CVSS2 ", "CVSS ", "v2:", "V2#", "2.0/", "cvss:", "cvss=", "vector:", "vector=", "Vector: ", "CVSS:3.1#", "CVSS3:", "CVSSv3#", "CVSSv3.1:", "CVSS3.1/", "CVSS:3.1 ", "AV:", "#", "/", "//", ":", "=", "?", "!", "~", "@", "$", "^", "&", "*", "+", "-", "_", ".", ",", ";", "|", "\\", "%", "0", "1"}
+var wrappers = [][2]string{{"(", ")"}, {"[", "]"}, {"{", "}"}, {"<", ">"}, {"\"", "\""}, {"'", "'"}, {"`", "`"}, {"((", "))"}, {"( ", " )"}, {"(", ""}, {"", ")"}, {"[", ""}, {"", "]"}, {"\"", ""}, {"", "\""}, {"“", "”"}, {"«", "»"}, {"（", "）"}}
+var trailers = []string{"/", "//", " ", "\n", "\r\n", "\t", "\x00", ";", ",", ".", "#", "?", "&", " (9.8)", " 9.8", "/9.8", " CRITICAL", " High", "=9.8", "%00", "%0A", "\\n", "\u2028", "\u0085"}
+
+func Presentations(v spec.Vec, f func(s, label string)) {
+	base := v.String()
+	bodies := []string{base}
+	if v.Ver != "" { // v3: also the vector without its own prefix behind a label
+		bodies = append(bodies, strings.TrimPrefix(base, "CVSS:"+v.Ver+"/"))
+	}
+	for bi, b := range bodies {
+		for _, l := range schemeLabels {
+			f(l+b, "present:label")
+			if bi == 0 {
+				f(b+l, "present:label-behind")
+			}
+			for _, w := range wrappers[:7] {
+				f(l+w[0]+b+w[1], "present:label+wrapper")
+				f(w[0]+l+b+w[1], "present:wrapper+label")
+			}
+		}
+		for _, w := range wrappers {
+			f(w[0]+b+w[1], "present:wrapper")
+		}
+		for _, tr := range trailers {
+			f(b+tr, "present:trailer")
+			f(tr+b, "present:leader")
+			f("("+b+")"+tr, "present:wrapper+trailer")
+		}
+	}
+}
+
 func Shapes(ver int, v spec.Vec, level spec.Level, full bool, f func(s, label string)) {
+	Presentations(v, f)
 	ValueRuns(ver, v, f)
 	Moves(v, f)
 	Floods(ver, v, level, full, f)
